@@ -46,9 +46,39 @@ pub enum KeyTy {
     NewtypeSpanned(String),
     /// reader only: `Spanned<i64>` as the key type (integer keys are rejected with and without the wrapper)
     SpannedI64,
+    /// reader only: `Spanned<K>` for any other key type K (newtype around String, unit-variant enum, char, bool)
+    SpannedKey(Box<KeyTy>),
     I64,
     Bool,
     Char,
+}
+
+impl KeyTy {
+    /// the key type as an ordinary type (what `Spanned<K>` wraps when K is used in key position)
+    pub fn as_ty(&self) -> Ty {
+        match self {
+            KeyTy::Str => Ty::Str,
+            KeyTy::UnitVariant(n, vs) => Ty::Enum(n.clone(), vs.iter().map(|v| (v.clone(), VarTy::Unit)).collect()),
+            KeyTy::NewtypeStr(n) => Ty::Newtype(n.clone(), Box::new(Ty::Str)),
+            KeyTy::SpannedStr => Ty::Spanned(Box::new(Ty::Str)),
+            KeyTy::NewtypeSpanned(n) => Ty::Newtype(n.clone(), Box::new(Ty::Spanned(Box::new(Ty::Str)))),
+            KeyTy::SpannedI64 => Ty::Spanned(Box::new(Ty::I64)),
+            KeyTy::SpannedKey(k) => Ty::Spanned(Box::new(k.as_ty())),
+            KeyTy::I64 => Ty::I64,
+            KeyTy::Bool => Ty::Bool,
+            KeyTy::Char => Ty::Char,
+        }
+    }
+    /// the key type with Spanned wrappers removed
+    pub fn despanned(&self) -> KeyTy {
+        match self {
+            KeyTy::SpannedStr => KeyTy::Str,
+            KeyTy::NewtypeSpanned(n) => KeyTy::NewtypeStr(n.clone()),
+            KeyTy::SpannedI64 => KeyTy::I64,
+            KeyTy::SpannedKey(k) => k.despanned(),
+            k => k.clone(),
+        }
+    }
 }
 
 #[derive(Clone, Debug, PartialEq, Eq, Serialize, Deserialize)]
@@ -137,12 +167,7 @@ impl Ty {
             Ty::Spanned(t) => t.despanned(),
             Ty::Option(t) => Ty::Option(Box::new(t.despanned())),
             Ty::Seq(t) => Ty::Seq(Box::new(t.despanned())),
-            Ty::Map(k, t) => Ty::Map(match k {
-                KeyTy::SpannedStr => KeyTy::Str,
-                KeyTy::NewtypeSpanned(n) => KeyTy::NewtypeStr(n.clone()),
-                KeyTy::SpannedI64 => KeyTy::I64,
-                k => k.clone(),
-            }, Box::new(t.despanned())),
+            Ty::Map(k, t) => Ty::Map(k.despanned(), Box::new(t.despanned())),
             Ty::Newtype(n, t) => Ty::Newtype(n.clone(), Box::new(t.despanned())),
             Ty::Tuple(ts) => Ty::Tuple(ts.iter().map(|t| t.despanned()).collect()),
             Ty::TupleStruct(n, ts) => Ty::TupleStruct(n.clone(), ts.iter().map(|t| t.despanned()).collect()),
